@@ -1,0 +1,53 @@
+//go:build verif
+
+// Contracts for deductive verification (read by /verif/govc). Comment-only: this file adds no code.
+package keeper
+
+//@ store ExpiredShard kv=sao/ExpiredShard/value/ key=sao_ExpiredShardKey val=github.com/SaoNetwork/sao/x/sao/types.ExpiredShard
+//@ accessor get (Keeper) GetExpiredShard ExpiredShard(height)
+//@ accessor set (Keeper) SetExpiredShard ExpiredShard(expiredShard.Height) expiredShard
+//@ accessor del (Keeper) RemoveExpiredShard ExpiredShard(height)
+//@ store TimeoutOrder kv=sao/TimeoutOrder/value/ key=sao_TimeoutOrderKey val=github.com/SaoNetwork/sao/x/sao/types.TimeoutOrder
+//@ accessor get (Keeper) GetTimeoutOrder TimeoutOrder(height)
+//@ accessor set (Keeper) SetTimeoutOrder TimeoutOrder(timeoutOrder.Height) timeoutOrder
+//@ accessor del (Keeper) RemoveTimeoutOrder TimeoutOrder(height)
+
+// acts_for(a, p): account a is provider p itself or one of the transaction addresses p registered
+//@ pure actsFor(a string, p string, hasNode bool, n node_Node) bool = a == p || (hasNode && contains(n.TxAddresses, a))
+
+// Cancel: a pending order is cancelled by its creator, or by the gateway node the creator belongs to.
+//@ func (msgServer) Cancel(goCtx, msg) (resp, err)
+//@   requires msg != nil
+//@   requires forall c string :: has(Pledge, c) ==> Pledge[c].Creator == c
+//@   requires forall c string :: has(PledgeDebt, c) ==> PledgeDebt[c].Sp == c && PledgeDebt[c].Debt.Amount >= 0
+//@   requires forall i int :: 0 <= i && i <= MaxUint64 && has(Shard, i) ==> Shard[i].Id == i && Shard[i].Pledge.Amount >= 0
+//@   requires has(Order, msg.OrderId) ==> Order[msg.OrderId].Id == msg.OrderId
+//@   requires has(Order, msg.OrderId) && has(Metadata, Order[msg.OrderId].DataId) ==> Metadata[Order[msg.OrderId].DataId].DataId == Order[msg.OrderId].DataId
+//@   requires forall h int :: 0 <= h && h <= MaxUint64 && has(ExpiredData, h) ==> ExpiredData[h].Height == h
+//@   requires [C11.sched.unique] has(Order, msg.OrderId) && has(Metadata, Order[msg.OrderId].DataId) ==> forall h int :: 0 <= h && h <= MaxUint64 && has(ExpiredData, h) && contains(ExpiredData[h].Data, Order[msg.OrderId].DataId)
+//@         ==> h == u64(Metadata[Order[msg.OrderId].DataId].CreatedAt + Metadata[Order[msg.OrderId].DataId].Duration)
+//@   requires [C11.sched.once] has(Order, msg.OrderId) && has(Metadata, Order[msg.OrderId].DataId) && has(ExpiredData, u64(Metadata[Order[msg.OrderId].DataId].CreatedAt + Metadata[Order[msg.OrderId].DataId].Duration)) ==>
+//@       forall i int, j int :: 0 <= i && i < j && j < len(ExpiredData[u64(Metadata[Order[msg.OrderId].DataId].CreatedAt + Metadata[Order[msg.OrderId].DataId].Duration)].Data)
+//@         ==> !(ExpiredData[u64(Metadata[Order[msg.OrderId].DataId].CreatedAt + Metadata[Order[msg.OrderId].DataId].Duration)].Data[i] == Order[msg.OrderId].DataId && ExpiredData[u64(Metadata[Order[msg.OrderId].DataId].CreatedAt + Metadata[Order[msg.OrderId].DataId].Duration)].Data[j] == Order[msg.OrderId].DataId)
+//@   modifies *
+//@   ensures [C10.cancel.actor] err == nil ==> msg.Creator == old(Order[msg.OrderId].Creator)
+//@       || (msg.Provider == old(Order[msg.OrderId].Provider)
+//@           && actsFor(msg.Creator, msg.Provider, old(has(Node, msg.Provider)), old(Node[msg.Provider]))
+//@           && actsFor(old(Order[msg.OrderId].Creator), msg.Provider, old(has(Node, msg.Provider)), old(Node[msg.Provider])))
+//@   ensures [C05.cancel.pending] err == nil ==> old(has(Order, msg.OrderId)) && old(Order[msg.OrderId].Status) != OrderCompleted
+//@   ensures [C05.cancel.order] err == nil ==> !has(Order, msg.OrderId)
+//@   ensures [C05.cancel.shards] err == nil ==> forall i int :: 0 <= i && i < len(old(Order[msg.OrderId].Shards)) ==> !has(Shard, old(Order[msg.OrderId].Shards)[i])
+//@   ensures [C05.cancel.model] err == nil && old(has(Metadata, Order[msg.OrderId].DataId)) && len(old(Metadata[Order[msg.OrderId].DataId].Commits)) == 0 ==> !has(Metadata, old(Order[msg.OrderId].DataId))
+//@   ensures [C05.cancel.restore] err == nil && old(has(Metadata, Order[msg.OrderId].DataId)) && len(old(Metadata[Order[msg.OrderId].DataId].Commits)) > 0 && len(old(Metadata[Order[msg.OrderId].DataId].Orders)) > 0 ==>
+//@       has(Metadata, old(Order[msg.OrderId].DataId)) && Metadata[old(Order[msg.OrderId].DataId)].Status == MetaComplete
+//@       && Metadata[old(Order[msg.OrderId].DataId)].Commit == CommitFromVersion(old(Metadata[Order[msg.OrderId].DataId].Commits)[len(old(Metadata[Order[msg.OrderId].DataId].Commits)) - 1])
+//@       && Metadata[old(Order[msg.OrderId].DataId)].OrderId == old(Metadata[Order[msg.OrderId].DataId].Orders)[len(old(Metadata[Order[msg.OrderId].DataId].Orders)) - 1]
+//@   loop L1 invariant -1 <= rangeindex
+//@   loop L1 invariant isCreator ==> contains(node.TxAddresses, order.Creator)
+//@   loop L2 invariant -1 <= rangeindex
+//@   loop L2 invariant isProvider ==> contains(provider.TxAddresses, msg0.Creator)
+//@   loop L3 invariant -1 <= rangeindex && rangeindex < len(order.Shards)
+//@   loop L3 invariant forall j int :: 0 <= j && j <= rangeindex ==> !has(Shard, order.Shards[j])
+//@   loop L3 invariant forall c string :: has(Pledge, c) ==> Pledge[c].Creator == c
+//@   loop L3 invariant forall c string :: has(PledgeDebt, c) ==> PledgeDebt[c].Sp == c && PledgeDebt[c].Debt.Amount >= 0
+//@   loop L3 invariant forall i int :: 0 <= i && i <= MaxUint64 && has(Shard, i) ==> Shard[i].Id == i && Shard[i].Pledge.Amount >= 0
